@@ -28,6 +28,9 @@ pub struct FlowRec {
     /// A snapshot was shipped to this follower and neither a status report nor an
     /// acknowledgement covering it has arrived yet.
     pub snap_outstanding: Option<u64>,
+    /// In-flight count and pending reduced capacity after the previous call.
+    pub last_count: usize,
+    pub last_incoming: Option<usize>,
 }
 
 impl Default for FlowRec {
@@ -41,6 +44,8 @@ impl Default for FlowRec {
             acked: 0,
             snapshots_since_event: 0,
             snap_outstanding: None,
+            last_count: 0,
+            last_incoming: None,
         }
     }
 }
@@ -233,9 +238,12 @@ pub fn after_call(
             continue;
         }
         seen.push(u);
-        let (_, count, cap, _incoming, _) = pr.ins.verif_view();
+        let (_, count, cap, incoming, _) = pr.ins.verif_view();
         let is_new = !m.g.per[v].flow.contains_key(&u);
         let rec = m.g.per[v].flow.entry(u).or_default();
+        let (pre_count, pre_incoming) = (rec.last_count, rec.last_incoming);
+        rec.last_count = count;
+        rec.last_incoming = incoming;
         // An acknowledgement that is not news (a duplicate or a late one: index at or below what
         // the leader already recorded) frees no capacity and does not end a probe pause.
         let stale_ack = matches!(op, Op::Step(x) if x.from == u
@@ -282,7 +290,19 @@ pub fn after_call(
             rec.snap_outstanding = Some(pr.pending_snapshot);
         }
         let mut bad: Option<(&'static str, String)> = None;
-        if let (Some(si), true) = (still_outstanding, na > 0 || ns > 0) {
+        // a window that was shrunk while appends were in flight admits nothing new until it holds
+        // fewer than the reduced capacity
+        if let Some(c) = pre_incoming {
+            m.stats.inc("c13.calls_with_pending_window_shrink");
+            if !is_new && !is_event && last_state == ProgressState::Replicate && pr.state == ProgressState::Replicate && pre_count >= c && na > 0 {
+                bad = Some((
+                    "send-beyond-reduced-window",
+                    format!("{} new entry-carrying appends to {} although its window was reduced to {} and still held {} unacknowledged ones", na, u, c, pre_count),
+                ));
+            }
+        }
+        if bad.is_some() {
+        } else if let (Some(si), true) = (still_outstanding, na > 0 || ns > 0) {
             let _ = outstanding_before;
             bad = Some((
                 "send-while-snapshot-outstanding",
